@@ -29,6 +29,9 @@ def free_names(fdef):
 def purity(E):
     """C10 'depends only on the set of layers (names and base relationships)': the ordering functions read nothing but
     their argument, __bases__ and name_from_layer, and keep no state between calls (decided on the real source)."""
+    if ('order_purity',) in E.added_axioms:          # shared by the sidecars runner_order and runner_layers
+        return
+    E.added_axioms.add(('order_purity',))
     allowed = {
         'runner.layer_sort_key': {'name_from_layer', 'UnitTests'},
         'runner.order_by_bases': {'layer_sort_key', 'gather_layers'},
@@ -47,7 +50,33 @@ def purity(E):
             "__bases__%s" % (qual, ' and ' + ', '.join(sorted(ok)) if ok else ''),
             not extra and not decl and not attrs and not dflt,
             'other names: %s; global/nonlocal: %s; other attributes: %s; non-constant defaults: %s'
-            % (extra, sorted(decl), attrs, dflt), props=('C10',))
+            % (extra, sorted(decl), attrs, dflt),
+            # C05 / C01 / C16: TestResult.__init__ and tear_down_unneeded keep (and reverse in place) the list they get from
+            # order_by_bases: a result shared between calls (a memo) would be changed under the other caller's feet
+            props=('C10', 'C05', 'C01', 'C16'))
+    # ... and what order_by_bases returns is a list made in this call: it is bound by a list display / list() / sorted()
+    # in the function and never stored anywhere (callers own it: tear_down_unneeded reverses it in place)
+    fdef, _, _ = E.find_def('runner.order_by_bases')
+    rets = [n.value for n in ast.walk(fdef) if isinstance(n, ast.Return)]
+    fresh = bool(rets)
+    why = []
+    for r in rets:
+        if isinstance(r, ast.Name):
+            binds = [a.value for a in ast.walk(fdef) if isinstance(a, ast.Assign)
+                     and any(isinstance(t, ast.Name) and t.id == r.id for t in a.targets)]
+            ok = bool(binds) and all(isinstance(b, (ast.List, ast.ListComp))
+                                     or (isinstance(b, ast.Call) and ast.unparse(b.func) in ('list', 'sorted')) for b in binds)
+            stored = [ast.unparse(a)[:50] for a in ast.walk(fdef) if isinstance(a, ast.Assign)
+                      and not all(isinstance(t, ast.Name) for t in a.targets)
+                      and any(isinstance(x, ast.Name) and x.id == r.id for x in ast.walk(a.value))]
+            if not ok or stored:
+                fresh = False
+                why.append('%s bound by %s; stored: %s' % (r.id, [ast.unparse(b)[:40] for b in binds], stored))
+        elif not (isinstance(r, (ast.List, ast.ListComp)) or (isinstance(r, ast.Call) and ast.unparse(r.func) in ('list', 'sorted'))):
+            fresh = False
+            why.append('returns %s' % ast.unparse(r)[:50])
+    E.syntactic_obligation("order_by_bases returns a list created in the call and stored nowhere else (its callers own it)",
+                           fresh, '; '.join(why), props=('C10', 'C05', 'C01', 'C16'))
     rt, _, rsrc = E.find_def('runner.Runner.run_tests')
     lst, _, lsrc = E.find_def('listing.Listing.report')
     E.syntactic_obligation("the run loop (Runner.run_tests) and --list-tests (Listing.report) both iterate "
